@@ -38,7 +38,8 @@
      11  a lookup by name does not find the entry the IDL means (a type expression of the
          resolved AST, a definition of the file, a name defined by exactly one file)
      12  a field lookup by name or id finds the wrong field
-     13  a method / parent service lookup finds the wrong entry
+     13  a method / parent service lookup finds the wrong entry, or GetAllMethods is not the methods of
+         the service followed by those of its base services in order
      14  a Go type does not map to its own descriptor and back
      15  the real code panicked, or a generated package did not register the descriptor of its file
      16  a Filepath inside the descriptor is not the path of the file *)
@@ -243,6 +244,21 @@ Definition parent_home (P : program) (f : file) (s : service) : found :=
   | None => if is_empty (sv_extends s) then None else Some (f_filename f, sv_extends s)
   end.
 
+(* own methods, then those of the base service the resolver bound, and so on *)
+Fixpoint ast_all_methods (fuel : nat) (P : program) (f : file) (s : service) : list (bytes * bytes) :=
+  map (fun fn => (f_filename f, fn_name fn)) (sv_functions s) ++
+  match fuel with
+  | O => []
+  | S n => match parent_home P f s with
+           | Some (gpath, sname) =>
+               match prog_file P gpath with
+               | Some g => match find_service g sname with Some t => ast_all_methods n P g t | None => [] end
+               | None => []
+               end
+           | None => []
+           end
+  end.
+
 Definition count_defining (P : program) (k : qkind) (n : bytes) : nat :=
   List.length (filter (fun nf => defines (snd nf) k n) P).
 
@@ -422,6 +438,12 @@ Definition case_codes (P : program) (c : case) : list N :=
           | Some sd =>
               flag (list_eqb' (fun a b => beqb (fst a) (fst b) && beqb (snd a) (snd b)) all
                       (map (fun m => (md_filepath m, md_name m)) (get_all_methods reg sd))) 1
+          end ++
+          match find_service f sname with
+          | Some s =>
+              flag (list_eqb' (fun a b => beqb (fst a) (fst b) && beqb (snd a) (snd b)) all
+                      (ast_all_methods (S (List.length (flat_map (fun nf => f_services (snd nf)) P))) P f s)) 13
+          | None => []
           end
       end
   end.
